@@ -43,7 +43,8 @@ selectcase selecttype is exist opened number named sequential direct formatted u
 """.split())
 
 TOKEN = re.compile(r"""
-      (?P<str>'(?:[^'\n]|'')*'|"(?:[^"\n]|"")*")
+      (?P<boz>(?<![A-Za-z0-9_])[bBoOzZ](?:'[0-9A-Fa-f]*'|"[0-9A-Fa-f]*"))
+    | (?P<str>'(?:[^'\n]|'')*'|"(?:[^"\n]|"")*")
     | (?P<num>(?:\d+\.\d*|\.\d+|\d+)(?:[eEdD][+-]?\d+)?(?:_\w+)?)
     | (?P<dot>\.[A-Za-z]+\.)
     | (?P<name>[A-Za-z]\w*)
@@ -106,7 +107,10 @@ def lexical_content(text):
     for m in TOKEN.finditer(text):
         kind = m.lastgroup
         t = m.group(kind)
-        if kind == "str":
+        if kind == "boz":
+            # a BOZ literal constant is a numeric literal: compared like the other numbers, without regard to letter case
+            out.append(("num", t.lower().replace('"', "'")))
+        elif kind == "str":
             out.append(("str", t))
         elif kind == "num":
             out.append(("num", t.lower().replace("d", "e") if re.search(r"[dD][+-]?\d", t) else t.lower()))
@@ -190,8 +194,18 @@ def run(tier):
             same = len(want) == len(got) and all(a == b or (a[0] == b[0] == "name" and b[1] == a[1].upper()) for a, b in zip(want, got))
             if not same:
                 k = next((i for i, (a, b) in enumerate(zip(want, got)) if not (a == b or (a[0] == b[0] == "name" and b[1] == a[1].upper()))), min(len(want), len(got)))
+                # site of the difference: the statement keyword of the printed line that holds the first differing token,
+                # and whether the tokens are merely in another order
+                stmt, seen = None, 0
+                for pl in strip_comments(str(tree)).splitlines():
+                    seen += len(lexical_content(pl))
+                    if seen > k:
+                        stmt = (pl.split() or [""])[0].split("(")[0].upper()
+                        break
+                canon = lambda ts: sorted((a, b.upper() if a == "name" else b) for a, b in ts)      # noqa: E731
+                kind = "reordered" if canon(want) == canon(got) else "changed"
                 failures.append(dict(obligation="tokens#printed_text_has_the_source_tokens_in_order",
-                                     witness=dict(program=name, std=std, options=kw, source=src),
+                                     witness=dict(program=name, std=std, options=kw, source=src, statement=stmt, difference=kind),
                                      observed=dict(printed=str(tree)[:400], first_difference=dict(source=want[k:k + 3], printed=got[k:k + 3]))))
             elif len(samples) < 3:
                 samples.append(dict(program=name, tokens=len(want)))
